@@ -72,7 +72,7 @@ ndet = sum(1 for r in rows if 'not detected' not in r[2])
 sec9 = '''## 9. Demonstrating detection
 
 **9.1 Seeded changes from fresh sub-agents.** Realistic property-breaking changes were
-obtained, in two rounds, from sub-agents that were given *only the text of the property*
+obtained, in three rounds, from sub-agents that were given *only the text of the property*
 and a scratch git worktree of `/repo` (nothing from `/verif`; in the second round also the
 nicknames of the first-round changes, to push them towards other clauses), and were asked
 for a change that compiles, passes the repository's test suite, breaks the property only
